@@ -53,6 +53,9 @@ CHECKS = {
  "C13": dict(technique="CrossHair symbolic execution of Transform.add_mark/remove_mark/add_node_mark/remove_node_mark/set_node_attribute/set_block_type/set_node_markup (range ends, position, mark/type index, attribute value symbolic); token-wise comparison with the reference mark algebra over the spec-derived exclusion relation",
              text="On documents of the list/docmarks schemas and six mark-exclusion schemas, for every range, mark, mark type and textblock type each path leaves structure tokens and everything outside the range identical, gives every inline token inside the range whose parent allows the type exactly ref_add(old, mark) (resp. the set minus the removed mark/type/all), changes only the addressed token for node-level edits, and keeps the text/leaf sequence under set_block_type/set_node_markup up to children the new type cannot hold and newline replacement.",
              ref="4/C13"),
+ "C05": dict(technique="CrossHair symbolic execution of to_json/from_json of Node, Fragment, Slice, Mark and the eight step classes (attribute values, open depths and all step integer fields symbolic); real json.dumps/loads on concrete self-test inputs",
+             text="With unbounded symbolic ints, a symbolic short string, None and one level of list/dict nesting as attribute values, symbolic open depths and every integer field of every step symbolic, decoding the JSON form gives an equal object that re-serialises identically, the JSON is plain data that does not alias live attribute values, decoded steps have the same effect and map on catalogue documents (positions bounded), and the registry holds exactly the eight published names; a fixed set of concrete inputs additionally passes through the real json encoder/decoder.",
+             ref="4/C05"),
 }
 CHECKS_END = None
 
